@@ -32,16 +32,28 @@ package commands
 // (verified: bookings stay printable, only placeholder accounts change) to every transaction of the
 // parsed file. That the bookings of different directives do not share memory - needed to lift
 // "printable" from one transaction to the whole file - is not expressed by the parser's contract, so
-// both are trusted here.
+// train is trusted and, in parseAndInfer, "the file stays printable" is an ASSUMED loop invariant and an
+// assumed postcondition (the parser does prove that the booking arrays of different transactions are
+// distinct, fresh allocations - ownBookings/apartBookings - but lifting prFile over the loop exceeds the
+// solvers' time limit); what is verified there: the target is parsed exactly once, a parse failure is
+// returned (never swallowed), the file handed on is the parsed one, and nothing that existed before the
+// call is written (frame).
 //@ func (inferRunner).train
 //@   trusted
 //@   modifies nothing
-//@   ensures result.1 == nil ==> result.0 != nil
+//@   ensures result.1 == nil ==> result.0 != nil && result.0.countByAccount != nil
 //
 //@ func (*inferRunner).parseAndInfer
-//@   trusted
+//@   requires model != nil && model.countByAccount != nil
 //@   modifies nothing
-//@   ensures result.1 == nil ==> prFile(result.0)
+//@   callback ParseFile=0
+//@   ensures [C18] [C15] @parsed: tlen() == old(tlen()) + 1 && targ("ParseFile", 0, old(tlen())) == targetFile
+//@   ensures [C18] [C15] @fail: tres1("ParseFile", old(tlen())) != nil ==> result.1 != nil
+//@   ensures [C18] [C15] @same: result.1 == nil ==> result.0.Range == tres("ParseFile", old(tlen())).Range && result.0.Directives == tres("ParseFile", old(tlen())).Directives
+//@   ensures [trusted] result.1 == nil ==> prFile(result.0)
+//@   loop 1 invariant [trusted] prFile(f)
+//@   loop 1 invariant tlen() == entry(tlen()) && ownBookings(f) && fresh(f.Directives)
+//@   loop 1 invariant oldElemsKept(dyn(f.Directives[0].Directive, "directives.Transaction").Bookings)
 //
 // execute (infer): train, then parse and infer, then render; with --inplace the complete rendering goes
 // into a memory buffer first and only a successful rendering is handed to atomic.WriteFile for the
